@@ -119,7 +119,11 @@ fn main() {
                         if gk != want_keys {
                             let got: std::collections::BTreeSet<&str> = gk.split(',').collect();
                             let lost = applied.iter().any(|k| !got.contains(k.to_string().as_str()));
-                            let class = if !lost { "-" } else if skew_ops > 0 { "wal-segment-id-skew-loses-acknowledged" } else { "-" };
+                            // class: every lost key was written to an unlinked WAL file (observed on the
+                            // real engine when it was stored)
+                            let lost_keys: Vec<u64> = applied.iter().copied().filter(|k| !got.contains(k.to_string().as_str())).collect();
+                            let all_orphaned = lost_keys.iter().all(|k| ex.orphaned.contains(k));
+                            let class = if lost && all_orphaned { "wal-segment-id-skew-loses-acknowledged" } else { "-" };
                             fail = Some(format!("{class}\top#{n}: want keys [{want_keys}] got [{line}] in {}", history_line(&cfg, ntypes, &ops)));
                         } else if ntypes == 1 && gc != applied.len() && !in_window {
                             let class = if gc > applied.len() { "wal-replay-duplicates-flushed-events" } else { "-" };
